@@ -212,7 +212,7 @@ func TestVerifC15(t *testing.T) {
 		cases = append(cases, c15case{Mode: "packet", N: []int{1, 2, 50, 500, 3000}[rng.Intn(5)], Workers: []int{1, 2, 16}[rng.Intn(3)], RxFrames: []int{0, 200, 2000}[rng.Intn(3)], Seed: rng.Uint64()})
 		cases = append(cases, c15case{Mode: "scanner", N: []int{1, 2, 50, 500, 3000}[rng.Intn(5)], Workers: []int{1, 2, 7, 100, 1000}[rng.Intn(5)], Seed: rng.Uint64()})
 	}
-	rates := []string{"1000/s", "500", "50/100ms", "200/250ms", "3000/3s", "20/10ms", "100/ms", "400/s"}
+	rates := []string{"1000/s", "500", "50/100ms", "200/250ms", "3000/3s", "20/10ms", "100/ms", "400/s", "150/1.5s", "30/0.3s", "20/.2s", "5/2.5ms", "300/0.05m"}
 	for i := 0; i < run.Pick(32, 200); i++ {
 		r := rates[i%len(rates)]
 		cases = append(cases, c15case{Mode: "cli", N: 60 + rng.Intn(140), Workers: []int{1, 7, 100}[rng.Intn(3)], Rate: r, Seed: rng.Uint64()})
